@@ -5,6 +5,7 @@ package main
 
 import (
 	"fmt"
+	"strings"
 	"math/rand"
 	"time"
 
@@ -1309,6 +1310,19 @@ func init() {
 			} else {
 				retries++
 			}
+		}
+		// gen_cov.go: tokens issued without an expiration option (library default: 30 s from now) are inside their window
+		xw, xl := covExtraWorlds(o.seed, id, false)
+		for i, w := range xw {
+			if !strings.Contains(xl[i], "default-exp") {
+				continue
+			}
+			c, _, err := runAndRender(w, st, xl[i])
+			if err != nil {
+				return err
+			}
+			labels[w.ID] = xl[i]
+			cases = append(cases, c)
 		}
 		if err := writeWorldCases(o.out, "cases_C03", cases, 16, "check_worlds"); err != nil {
 			return err
